@@ -27,3 +27,25 @@ fn c14_header_totals_bounded() {
     kani::cover!(n1 == 3 && n2 == 0, "cover.empty_group");
     kani::cover!(count == 6, "cover.full");
 }
+
+/// C14: without --isolate roots `sort_by_path` orders the paths of a group ascending (an order that depends only on the
+/// set of paths) and loses or duplicates none (bounded stand-in: 3 files in one directory, one-byte names).
+#[kani::proof]
+#[kani::unwind(8)]
+fn c14_sort_by_path_no_roots_bounded() {
+    use crate::path::verif_path::{p2, tag};
+    let n: [u8; 3] = [kani::any(), kani::any(), kani::any()];
+    kani::assume(n[0] != 0 && n[1] != 0 && n[2] != 0 && n[0] != b'/' && n[1] != b'/' && n[2] != b'/');
+    let fi = |i: usize| FileInfo { path: p2(b"d", &[n[i]]), id: FileId { device: 1, inode: i as _ }, len: FileLen(1), location: 0 };
+    let mut g = FileGroup { file_len: FileLen(1), file_hash: FileHash::from(&[0u8; 16][..]), files: vec![fi(0), fi(1), fi(2)] };
+    g.sort_by_path(&[]);
+    assert!(g.files.len() == 3, "C14.sort_by_path.no_path_is_lost_or_added");
+    let t = [tag(&g.files[0].path), tag(&g.files[1].path), tag(&g.files[2].path)];
+    assert!(t[0] <= t[1] && t[1] <= t[2], "C14.sort_by_path.paths_are_listed_in_ascending_order");
+    let ids = [g.files[0].id.inode, g.files[1].id.inode, g.files[2].id.inode];
+    assert!(ids[0] != ids[1] && ids[1] != ids[2] && ids[0] != ids[2], "C14.sort_by_path.no_path_is_lost_or_added");
+    assert!(tag(&g.files[0].path) == n[ids[0] as usize] && tag(&g.files[2].path) == n[ids[2] as usize],
+            "C14.sort_by_path.every_path_keeps_its_own_file_information");
+    std::mem::forget(g);
+    kani::cover!(n[0] > n[1] && n[1] > n[2], "cover.reversed_input");
+}
